@@ -703,6 +703,9 @@ def call_builtin(interp: Any, fv: BuiltinV, args: list[V], kwargs: dict[str, V],
     if name == "noop":
         yield NONE, st
         return
+    if name.startswith("const."):
+        yield interp.consts.get(name[6:], interp.unk("stub " + name)), st
+        return
     if name.startswith("model."):
         yield from model_op(interp, name[6:], fv.bound, args, kwargs, st, fr, node)
         return
@@ -1162,8 +1165,8 @@ def stack_cat(interp: Any, op: str, args: list[V], kwargs: dict[str, V], st: Sta
                 raise ShapeError(f"stack: tensors of different shapes {fmt_shape(st.norm_shape(ts[0].shape))} and {fmt_shape(st.norm_shape(x.shape))}", node)
         k = axis(i, r, node, "stack", extra=1)
         l0 = lays(ts[0])
-        same = all(lays(x) == l0 for x in ts[1:])
-        return mk(ts[0].shape[:k] + (Dim.const(len(ts)),) + ts[0].shape[k:], ts[0].dtype, (l0[:k] + [None] + l0[k:]) if same else None)
+        all_same = all(lays(x) == l0 for x in ts[1:])
+        return mk(ts[0].shape[:k] + (Dim.const(len(ts)),) + ts[0].shape[k:], ts[0].dtype, (l0[:k] + [None] + l0[k:]) if all_same else None)
     k = axis(i, r, node, "cat")
     total = Dim.const(0)
     for x in ts:
